@@ -699,3 +699,49 @@ def _fne(I, v, expected):
     if v is None:
         return TRUE
     return I.to_float(v) != expected
+
+
+# ---------------------------------------------------------------------------------------------- M8 the distance behind the 4 m trigger
+@vc("C10", "M8-haversine-distance")
+def haversine(ctx):
+    """_haversine_m against the haversine formula: every trigonometric / root call is an uninterpreted function, the obligation is that the code
+    applies them to exactly the arguments of the formula and combines them as the formula does (the functions themselves are libm's)"""
+    import math
+    I = make("int")
+    lat1, lon1, lat2, lon2 = (I.float_var(n, -180.0, 180.0) for n in ("lat1", "lon1", "lat2", "lon2"))
+    SIN, COS, SQRT = (z3.Function(n, z3.RealSort(), z3.RealSort()) for n in ("sin", "cos", "sqrt"))
+    ATAN2 = z3.Function("atan2", z3.RealSort(), z3.RealSort(), z3.RealSort())
+    K = z3.RealVal(repr(math.pi / 180.0)) if False else I.fconst(math.pi / 180.0)
+    I.stubs[math.sin] = lambda it, a, k, pc: SIN(it.to_float(a[0]))
+    I.stubs[math.cos] = lambda it, a, k, pc: COS(it.to_float(a[0]))
+    I.stubs[math.sqrt] = lambda it, a, k, pc: SQRT(it.to_float(a[0]))
+    I.stubs[math.atan2] = lambda it, a, k, pc: ATAN2(it.to_float(a[0]), it.to_float(a[1]))
+    I.stubs[math.radians] = lambda it, a, k, pc: it.to_float(a[0]) * K
+    res = I.call_function(CTM._haversine_m, [lat1, lon1, lat2, lon2])
+    exc = z3.Or(*[c for c, k in I.raises]) if I.raises else FALSE
+    dlat, dlon = (lat2 - lat1) * K, (lon2 - lon1) * K
+    a = SIN(dlat / 2) * SIN(dlat / 2) + COS(lat1 * K) * COS(lat2 * K) * SIN(dlon / 2) * SIN(dlon / 2)
+    one_minus = z3.If(1 - a >= 0, 1 - a, z3.RealVal(0))
+    want = z3.RealVal(6371000) * 2 * ATAN2(SQRT(a), SQRT(one_minus))
+
+    def replay(vals):
+        def fl(x):
+            return float(__import__("fractions").Fraction(str(x).rstrip("?"))) if isinstance(x, str) else float(x)
+        pts = [(fl(vals["lat1"]), fl(vals["lon1"]), fl(vals["lat2"]), fl(vals["lon2"])), (41.0, 2.0, 41.0, 2.0001), (41.0, 2.0, 41.0001, 2.0), (-33.9, 18.4, -33.9001, 18.4002),
+               (0.0, 179.9999, 0.0, -179.9999)]
+        bad = []
+        for la1, lo1, la2, lo2 in pts:
+            got = CTM._haversine_m(la1, lo1, la2, lo2)
+            p1, p2 = math.radians(la1), math.radians(la2)
+            h = math.sin((p2 - p1) / 2) ** 2 + math.cos(p1) * math.cos(p2) * math.sin(math.radians(lo2 - lo1) / 2) ** 2
+            ref = 2 * 6371000.0 * math.atan2(math.sqrt(h), math.sqrt(max(0.0, 1 - h)))
+            if abs(got - ref) > 1e-6 * max(1.0, ref):
+                bad.append(f"({la1},{lo1})->({la2},{lo2}): {got:.4f} m, haversine formula {ref:.4f} m")
+        return bool(bad), "; ".join(bad) or "agrees with the haversine formula"
+    vars_ = {"lat1": lat1, "lon1": lon1, "lat2": lat2, "lon2": lon2}
+    ctx.witness("haversine-reach", I, z3.Not(exc), vars=vars_, validate=lambda v: not replay(v)[0], good=TRUE)
+    ctx.prove("haversine-no-exception", I, exc, vars=vars_, replay=replay)
+    ctx.prove("haversine-is-the-haversine-formula", I, z3.And(z3.Not(exc), I.to_float(res) != want), vars=vars_, replay=replay,
+              desc="2R*atan2(sqrt(a), sqrt(max(0, 1-a))) with a = sin^2(dlat/2) + cos(lat1)cos(lat2)sin^2(dlon/2), angles in radians, as a term identity over uninterpreted sin / cos / sqrt / atan2")
+    ctx.bound("coordinates arbitrary reals in [-180, 180] degrees; real arithmetic between the library calls")
+    ctx.stub("math.sin / cos / sqrt / atan2 uninterpreted functions (shared with the reference term); math.radians = x * (pi/180 as the exact double)")
